@@ -63,7 +63,7 @@ var favTx = map[string][]string{
 	"spend":  {"valid", "double-spend", "same-input-twice", "same-input-twice-rich", "spend-pooled", "spend-last-block", "duplicate", "bad-index", "unknown-ref"},
 	"owner":  {"valid", "valid", "zero-first-outputs", "zero-first-outputs", "shifted-owner", "shifted-owner", "shifted-owner", "many-outputs", "bad-sig", "zero-sig", "wrong-owner", "wrong-owner-2nd", "wrong-owner-2nd", "foreign-sig", "replay-sig", "replay-sig", "unknown-ref"},
 	"shape":  {"valid", "ts-old", "ts-last", "ts-next", "ts-future"},
-	"income": {"valid", "yield-new", "yield-new", "yield-twice", "yield-registered", "yield-swap", "yield-swap"},
+	"income": {"valid", "yield-new", "yield-new", "yield-twice", "yield-registered", "yield-pending", "yield-swap", "yield-swap"},
 	"alias":  {"valid", "yield-new", "yield-new", "yield-registered"},
 	"pool":   {"valid", "valid", "yield-swap", "yield-swap", "yield-swap", "yield-swap", "yield-swap", "duplicate", "double-spend", "fee-low", "fee-exact", "ts-old", "ts-future", "ts-next", "ts-last", "same-input-twice"},
 	"agree":  {"valid", "valid", "yield-swap", "yield-swap", "fee-exact", "ts-last", "ts-next", "yield-new", "yield-registered", "consolidate", "zero-output", "spend-last-block", "spend-pooled"},
@@ -125,7 +125,7 @@ func (sc *scenario) value(u *ledger.Utxo, at int64) uint64 {
 
 var txKinds = []string{"valid", "valid", "valid", "valid", "fee-exact", "fee-low", "fee-plus1", "double-spend", "duplicate", "bad-sig",
 	"zero-sig", "wrong-owner", "wrong-owner-2nd", "foreign-sig", "replay-sig", "unknown-ref", "bad-index", "ts-old", "ts-last", "ts-next", "ts-future", "overflow", "huge-output",
-	"yield-new", "yield-twice", "yield-registered", "yield-swap", "same-input-twice", "same-input-twice-rich", "spend-pooled", "spend-last-block", "zero-output", "zero-first-outputs", "shifted-owner", "many-outputs", "consolidate"}
+	"yield-new", "yield-twice", "yield-registered", "yield-swap", "same-input-twice", "same-input-twice-rich", "spend-pooled", "spend-last-block", "yield-pending", "zero-output", "zero-first-outputs", "shifted-owner", "many-outputs", "consolidate"}
 
 func (sc *scenario) makeTx(n *node.Node, kind string) (*ledger.Transaction, string) {
 	r := sc.rng
@@ -370,6 +370,41 @@ func (sc *scenario) makeTx(n *node.Node, kind string) (*ledger.Transaction, stri
 		}
 		o[1].IsYielding = true // rest back to sender, yielding
 		return mk(spends, o, ts), kind
+	case "yield-pending": // a yielding output for an address that waits in the node's pending-removal list (still
+		// registered until a block listing it as removed is confirmed): its own income renewed, or a first income
+		for _, a := range n.Reg.VerifPendingRemovals() {
+			wl := sc.walletOf(a)
+			if wl == nil {
+				continue
+			}
+			var own, plain *utxoRef
+			for i := range usable {
+				u := &usable[i]
+				if u.owner == wl && u.u.IsYielding() && own == nil {
+					own = u
+				}
+				if !u.u.IsYielding() && plain == nil && sc.value(u.u, next) > S.MinFee+2 {
+					plain = u
+				}
+			}
+			if own != nil && sc.value(own.u, next) > S.MinFee+2 {
+				v := sc.value(own.u, next)
+				return mk([]node.Spend{{TxId: own.u.TransactionId(), Index: own.u.OutputIndex(), By: own.owner}},
+					[]node.RawOutput{{Address: wl.Address, IsYielding: true, Value: v - S.MinFee}}, ts), kind
+			}
+			hasIncome := false
+			for _, u := range conf {
+				if u.owner == wl && u.u.IsYielding() {
+					hasIncome = true
+				}
+			}
+			if !hasIncome && plain != nil {
+				v := sc.value(plain.u, next)
+				return mk([]node.Spend{{TxId: plain.u.TransactionId(), Index: plain.u.OutputIndex(), By: plain.owner}},
+					[]node.RawOutput{{Address: wl.Address, IsYielding: true, Value: (v - S.MinFee) / 2}, {Address: plain.owner.Address, Value: v - S.MinFee - (v-S.MinFee)/2}}, ts), kind
+			}
+		}
+		return nil, ""
 	case "yield-swap":
 		// order-dependent pair: A releases an address's only yielding output, B (pooled later) gives that address a
 		// new yielding output: B is admissible only after A, so a shuffle that tries B first must drop it
@@ -1089,6 +1124,17 @@ func (sc *scenario) run(maxOps int) {
 				invalid = append(invalid, "0xListed0", "0xListed1", "0xListed2")
 			}
 			w.RegSync(n, invalid, failing)
+			if (sc.profile == "income" || sc.profile == "alias") && len(n.Reg.VerifPendingRemovals()) > 0 && r.Intn(2) == 0 && len(n.AllBlocks()) > 0 {
+				// the pending addresses go into the next block's removed list; the block after that confirms the removal
+				// — and may at the same time give one of them a yielding output again, which it must then list as added
+				w.Tick(n, n.Chain.LastBlockTimestamp()+S.Interval)
+				if tp, kp := sc.makeTx(n, "yield-pending"); tp != nil {
+					vp := w.Submit(n, tp)
+					w.Hist["tx:"+kp+"→"+vp.Info["submit"]]++
+				}
+				w.Tick(n, n.Chain.LastBlockTimestamp()+S.Interval)
+				w.Tick(n, n.Chain.LastBlockTimestamp()+S.Interval)
+			}
 		default:
 			l := uint64(len(n.AllBlocks()))
 			w.Read(n, uint64(r.Int63n(int64(l)+3)))
